@@ -86,7 +86,7 @@ func TestRace(t *testing.T) {
 	if os.Getenv("VERIF_RACE") == "" {
 		t.Skip("race pass only")
 	}
-	const rounds = 12
+	const rounds = 40
 	routes := raceRoutes()
 	for it := 0; it < rounds; it++ {
 		// inbound: three routes, two goroutines each, reloads reordering the routes in between
